@@ -375,6 +375,16 @@ def hand_format(name: str, rows: list, rng):
                                              dtype=r["job_due_time"].dtype)
             out.append(r)
         return out, "hand:smtwtp_integer"
+    if name == "mcp":
+        # a set without members (all padding; MCPGenerator(min_size=0) emits them): legal data -- it can still be
+        # chosen, it just covers nothing
+        out = []
+        for r in rows:
+            r = {k: v.clone() for k, v in r.items()}
+            if rng.random() < 0.7:
+                r["membership"][rng.randrange(r["membership"].shape[0])] = 0
+            out.append(r)
+        return out, "hand:mcp_empty_set"
     if name == "atsp":
         # cost matrices in real units (minutes, kilometres): the matrix is the instance, whatever range the
         # environment's own generator draws from.  Scaling keeps the triangle inequality.
